@@ -91,6 +91,7 @@ class Parser(object):
         self.parser = yacc.yacc(module=self, debug=False)
         self.lexer = Lexer().lexer
         self.eems_v2 = False
+        self.errors = []
 
     def p_program(self, p):
         """
@@ -233,7 +234,12 @@ class Parser(object):
         elements : element COMMA elements
         """
 
-        p[0] = [p[1]] + p[3]
+        if isinstance(p[3], dict):
+            # `[a, k: v]`: the grammar lets tuple pairs follow list elements, but the two cannot be mixed
+            self.errors.append("Syntax error: list elements and tuple pairs mixed in one list at line {0}".format(p.lineno(2)))
+            p[0] = [p[1]]
+        else:
+            p[0] = [p[1]] + p[3]
 
     def p_elements_element(self, p):
         """
@@ -309,5 +315,11 @@ class Parser(object):
 
         self.lexer.lineno = 1
         self.eems_v2 = False
+        self.errors = []
 
-        return self.parser.parse(source, lexer=self.lexer, tracking=True)
+        program = self.parser.parse(source, lexer=self.lexer, tracking=True)
+
+        if self.errors:
+            raise SyntaxError(self.errors[0])
+
+        return program
